@@ -156,6 +156,21 @@ structure PyGraph where
 def dictSet {V : Type} (d : Nat → Option V) (k : Nat) (v : V) : Nat → Option V :=
   fun k' => if k' = k then some v else d k'
 
+/-- Python's `l[-n:]` (for n = 0 this is `l[0:]`: the whole list) -/
+def sliceLast {α : Type} (l : List α) (n : Nat) : List α := if n = 0 then l else l.drop (l.length - n)
+/-- Python's `l[:-n]` (for n = 0 this is `l[:0]`: the empty list) -/
+def sliceButLast {α : Type} (l : List α) (n : Nat) : List α := if n = 0 then [] else l.take (l.length - n)
+
+/-- what construct_stack_ast reads of an instruction: its identity (position in the block), class view, printed form,
+    `stack_pop_size` and `stack_push_size` -/
+structure PyInsInfo where
+  pos : Nat
+  op : Op
+  text : String
+  pops : Nat
+  pushes : Nat
+deriving Inhabited
+
 /-- a dictionary with block keys whose lookups are totalised (`d[k]` of a missing key is a KeyError in Python, modelled by
     `mkGraph`): `d[k] = v` is function update -/
 def dmapSet {V : Type} (d : Nat → V) (k : Nat) (v : V) : Nat → V :=
